@@ -12,7 +12,7 @@ LEVEL_TEXT = "Every cell of the (tuning, lost-transmission subset, acknowledgeme
 LEVEL_NOTE = "Trusted: harness/vloop.py virtual clock, harness/simnet.py wire log, harness/refcodec.py. ACK arrival instants are kept >= 1 ms away from timer instants (both orders are legal at the same instant)."
 RULE = (
     "one case = one CON exchange under one cell (tuning, set of lost transmissions, ack kind in {none, empty ACK+separate response, piggybacked, RST}, "
-    "ack trigger transmission k, ack delay class, decoy in {none, mid+1, mid-1, other port, other ip, duplicate ack}); client requests and server-sent CON responses. "
+    "ack trigger transmission k, ack delay class, decoy in {none, mid+1, mid-1, other port, other ip, duplicate ack, the peer's own NON request / CON request / ping under the same message ID}); client requests and server-sent CON responses. "
     "Non-trivial = at least one retransmission or fault or decoy happened; distinct = distinct cell tuples"
 )
 ASSUMPTIONS = ["datagram latency in the simulation is 1 ms each way", "random.uniform is the source of the initial timeout (seeded per case)"]
@@ -29,7 +29,7 @@ TUNINGS = [
 ]
 TUNINGS_SAMPLED = [(0.5, 1.5, 7), (1.0, 1.2, 5)]
 ACK_KINDS = ["none", "empty", "piggy", "rst", "foreign"]
-DECOYS = ["none", "mid+1", "mid-1", "port", "ip", "dup"]
+DECOYS = ["none", "mid+1", "mid-1", "port", "ip", "dup", "own-non-req", "own-con-req", "own-ping"]
 DELAYS = ["fast", "mid", "late", "after1"]  # position of the ack inside the gap following transmission k
 TOL = 1e-6
 
@@ -116,6 +116,14 @@ def run_client_case(cell, seed, rep, case):
                     net.send(S_PORT, src, rc.encode(rc.Msg(rc.ACK, 0, m.mid, b"", (), b"")))
                 elif decoy == "ip":
                     net.send(S_IP, src, rc.encode(rc.Msg(rc.ACK, 0, m.mid, b"", (), b"")))
+                elif decoy == "own-non-req":
+                    # the peer is a client of ours as well, and its own message-ID counter happens to stand where
+                    # ours does: message IDs of the two directions are unrelated
+                    peer.send(src, rc.Msg(rc.NON, 1, m.mid, b"\x99", ((11, b"peers-own"),), b""))
+                elif decoy == "own-con-req":
+                    peer.send(src, rc.Msg(rc.CON, 1, m.mid, b"\x99", ((11, b"peers-own"),), b""))
+                elif decoy == "own-ping":
+                    peer.send(src, rc.Msg(rc.CON, 0, m.mid, b"", (), b""))
 
             def real():
                 if kind == "empty":
@@ -136,7 +144,7 @@ def run_client_case(cell, seed, rep, case):
                     # separate response a little later (NON, so no further exchange state is needed)
                     loop.call_later(0.5, peer.send, src, rc.Msg(rc.NON, rc.c(2, 5), peer.next_mid(), m.token, (), b"separate"))
 
-            if decoy in ("mid+1", "mid-1", "port", "ip"):
+            if decoy in ("mid+1", "mid-1", "port", "ip", "own-non-req", "own-con-req", "own-ping"):
                 # the decoy arrives first and leaves the exchange open for a while, the real one later:
                 # decoys must not change the schedule in between
                 loop.call_later(d, reply)
@@ -237,7 +245,7 @@ def judge(cell, obs, rep, case, side, res):
                 expected = [t for t in due if t < t_ack - 1e-4]
                 if len(tx) < len(expected):
                     rep.violation(side + "/retransmission-missing-before-ack", "a retransmission that was due before the ACK/RST arrived was not sent", w(t_ack=t_ack, due=due), case)
-            if decoy in ("mid+1", "mid-1", "port", "ip"):
+            if decoy in ("mid+1", "mid-1", "port", "ip", "own-non-req", "own-con-req", "own-ping"):
                 rep.monitor("decoy_no_effect")
     else:
         # no matching ack ever arrived: full schedule and give-up
